@@ -40,3 +40,7 @@ func memCloseVictim() (spec.Batch, func(segment.Segment, *ref.Content) string) {
 		return ""
 	}
 }
+
+func vecBuildMenu() []spec.Batch { return nil }
+
+func vecBuildOracle(seg segment.Segment, exp *ref.Content) string { return "" }
